@@ -109,10 +109,18 @@ def run(rep):
     if wrongly or len(cans) not in a:
         raise tlc.MachineryError(f"canary failure: accepted {wrongly}; control accepted={len(cans) in a}")
     rep.extra["canaries_rejected"] = [c[0] for c in cans]
+    # header level: Headers.tla (envelope + transcription of process_header / row grouping) against the real functions
+    from harness.props import _headers
+
+    _headers.part(rep, PROP)
 
 
 def replay(rep, case):
     c = case["case"]
+    if c.get("headers"):
+        from harness.props import _headers
+
+        return _headers.replay(rep, PROP, c)
     o = _run({"case": c["case"], "fmt": c.get("fmt", "xlsx"), "seed": c.get("seed", 0)})
     acc, info = tlc.validate_traces("Trace_Layout", corpus._cfg("Trace_Layout.cfg", TRACE_CFG), [o["trace"]], shards=1, tag="replay")
     rep.traces_validated += len(acc)
